@@ -15,6 +15,7 @@ import (
 	"log"
 	"os"
 	"path/filepath"
+	"sort"
 	"sync"
 	"time"
 
@@ -191,6 +192,7 @@ type runner struct {
 	reqs    chan func() error // the ONE client goroutine executes the requests in order
 	resp    chan error
 	started bool
+	ended   bool // the source has ended by itself
 }
 
 func (r *runner) fail(format string, a ...interface{}) {
@@ -356,6 +358,54 @@ func (r *runner) op(o Op) bool {
 		}
 		fts := dastard.FullTriggerState{ChannelIndices: all, TriggerState: ts}
 		return r.call(o.Op, func() error { return sc.ConfigureTriggers(&fts, &ok) })
+	case "trig1":
+		// primary (auto) triggers in channel 0 only: with the coupling 0 -> 1..n-1 every other channel gets
+		// secondary records and nothing else
+		off := dastard.FullTriggerState{ChannelIndices: all}
+		if !r.call(o.Op, func() error { return sc.ConfigureTriggers(&off, &ok) }) {
+			return false
+		}
+		ts := dastard.TriggerState{AutoTrigger: true, AutoDelay: 100 * time.Microsecond}
+		fts := dastard.FullTriggerState{ChannelIndices: []int{0}, TriggerState: ts}
+		return r.call(o.Op, func() error { return sc.ConfigureTriggers(&fts, &ok) })
+	case "wfull":
+		// START writing LJH files whose data files cannot be written: the file names of the new run
+		// directory are made symbolic links to /dev/full before the first record creates them (call this
+		// while no trigger is on), so every write of the file's writer goroutine fails with ENOSPC
+		cfg := dastard.WriteControlConfig{Request: "START", Path: filepath.Join(r.dir, "data"), WriteLJH22: true}
+		var err error
+		if !r.call(o.Op, func() error { err = sc.WriteControl(&cfg, &ok); return err }) {
+			return false
+		}
+		if err != nil {
+			return true
+		}
+		today := time.Now().Format("20060102")
+		runs, _ := filepath.Glob(filepath.Join(r.dir, "data", today, "[0-9][0-9][0-9][0-9]"))
+		if len(runs) == 0 {
+			r.fail("wfull: no run directory")
+			return true
+		}
+		sort.Strings(runs)
+		run := runs[len(runs)-1]
+		for _, nm := range r.names {
+			os.Symlink("/dev/full", filepath.Join(run, fmt.Sprintf("%s_run%s_%s.ljh", today, filepath.Base(run), nm)))
+		}
+		return true
+	case "selfend":
+		// the source ends by itself; the client's next request is ConfigureAbacoSource, with nothing in
+		// between that would synchronise the client with the dying core loop (hence a plain sleep)
+		if r.s.Source != "abaco" {
+			return true
+		}
+		if r.release != nil {
+			r.release()
+		}
+		r.ctl.VerifC17AbacoEnds()
+		time.Sleep(300 * time.Millisecond)
+		cfg := dastard.AbacoSourceConfig{}
+		r.ended = true
+		return r.call(o.Op, func() error { return sc.ConfigureAbacoSource(&cfg, &ok) })
 	case "couple":
 		if nch < 2 {
 			return true
@@ -472,6 +522,12 @@ func (r *runner) op(o Op) bool {
 		fts.EdgeMultiLevel = level
 		fts.EdgeMultiVerifyNMonotone = 1
 		return r.call(o.Op, func() error { return sc.ConfigureTriggers(&fts, &ok) })
+	case "biglen":
+		// records of 2016 bytes (use with simpulse, pulse 2000: four auto-triggered records per block): a data
+		// file's 64 kB buffer then overflows after 8 blocks, between two of the flushes that the core loop
+		// requests every 20 blocks, i.e. in the writer goroutine's own Write
+		so := dastard.SizeObject{Nsamp: 1000, Npre: 250}
+		return r.call(o.Op, func() error { return sc.ConfigurePulseLengths(so, &ok) })
 	case "lengths":
 		so := dastard.SizeObject{Nsamp: nsamp + 2*(o.N%2), Npre: npre}
 		return r.call(o.Op, func() error { return sc.ConfigurePulseLengths(so, &ok) })
@@ -543,6 +599,9 @@ func Run(s Scenario, h Hooks, dir string, repo string) Outcome {
 	r.names = append([]string(nil), r.sc.ActiveSource.ChannelNames()...)
 	alive := true
 	for _, o := range s.Ops {
+		if r.ended {
+			break // nothing runs any more
+		}
 		if !r.op(o) {
 			alive = false
 			break
